@@ -211,6 +211,7 @@ class Builder(object):
         r = self.rng
         w = self.w
         ircfg = IRCFG(w.IRDst, w.loc_db)
+        built = []
         for k, targets in enumerate(shape):
             tl = [w.locs[t] if isinstance(t, int) else w.outs[int(t[3:])] for t in targets]
             dst = self.irdst(tl, None)
@@ -225,7 +226,13 @@ class Builder(object):
                     abs_.append(AssignBlock({w.IRDst: dst}))
                 else:
                     abs_.append(self.assignblk())
-            ircfg.add_irblock(IRBlock(w.loc_db, w.locs[k], abs_))
+            built.append(IRBlock(w.loc_db, w.locs[k], abs_))
+        # registration order is not control-flow order in half of the graphs (the analyses iterate
+        # over the block dictionary)
+        if r.random() < 0.5:
+            r.shuffle(built)
+        for blk in built:
+            ircfg.add_irblock(blk)
         return ircfg
 
 
@@ -478,6 +485,55 @@ def ssa_edge_reads(rec, prog, order):
     return edge_reads, phi_args
 
 
+class Tagged(object):
+    """recorder proxy that marks the failure keys of a variant"""
+    def __init__(self, rec, tag):
+        self._rec, self._tag = rec, tag
+
+    def __getattr__(self, name):
+        return getattr(self._rec, name)
+
+    def fail(self, key, what, wit=None):
+        self._rec.fail(key + self._tag, what, wit)
+
+
+def empty_block_variant(rec, rng, world, ircfg, order, prog, wit):
+    """reaching definitions / def-use on the same blocks laid out as a hand-built graph (block dictionary
+    and edges written directly, blocks registered in random order) with one or two blocks WITHOUT any
+    AssignBlock inserted on internal edges: pure pass-through nodes"""
+    from miasm.ir.ir import IRCFG, IRBlock
+    edges = [(a, b) for a, ss in enumerate(prog["succ"]) for b in ss]
+    if not edges:
+        return
+    order2 = list(order)
+    blocks2 = list(prog["blocks"])
+    succ2 = [list(ss) for ss in prog["succ"]]
+    for a, b in rng.sample(edges, min(len(edges), rng.choice([1, 1, 2]))):
+        if b not in succ2[a]:
+            continue
+        e_idx = len(order2)
+        order2.append(world.loc_db.add_location())
+        blocks2.append([])
+        succ2[a] = [e_idx if t == b else t for t in succ2[a]]
+        succ2.append([b])
+    g = IRCFG(world.IRDst, world.loc_db)
+    reg = list(range(len(order2)))
+    rng.shuffle(reg)
+    for k in reg:
+        lk = order2[k]
+        g.blocks[lk] = ircfg.blocks[lk] if lk in ircfg.blocks else IRBlock(world.loc_db, lk, [])
+        g.add_node(lk)
+    for a, ss in enumerate(succ2):
+        for t in ss:
+            g.add_uniq_edge(order2[a], order2[t])
+    prog2 = dict(blocks=blocks2, succ=succ2, exits=list(prog["exits"]) + [None] * (len(order2) - len(order)), phis={})
+    rec.count("graphs_with_empty_pass_through_block")
+    wit2 = dict(wit, empty_blocks=[str(lk) for lk in order2[len(order):]],
+                edges=[(a, t) for a, ss in enumerate(succ2) for t in ss],
+                registration=[str(order2[k]) for k in reg])
+    check_reaching_defuse(Tagged(rec, " [hand-built graph with an empty pass-through block]"), g, order2, prog2, wit2)
+
+
 def one_graph(rec, rng, world, shape, tag):
     from miasm.analysis.data_flow import DiGraphLiveness, DiGraphLivenessIRA, DiGraphLivenessSSA
     from miasm.ir.ir import IRCFG
@@ -506,6 +562,8 @@ def one_graph(rec, rng, world, shape, tag):
         rec.count("graphs_with_outside_exit")
 
     check_reaching_defuse(rec, ircfg, order, prog, wit)
+    if rng.random() < 0.3:
+        empty_block_variant(rec, rng, world, ircfg, order, prog, wit)
 
     variables = list(world.vars) + [world.RET, world.IRDst]
     # base class: nothing is read after the graph
